@@ -71,22 +71,64 @@ theorem unfilter_filter_all (t : PredictorType) (bpp : Nat) (prev row out0 : Byt
     unfilter t bpp prev (pngFilterRow (tagOf t) bpp prev row) out0 = .ok row :=
   unfilter_filter t bpp prev row out0 hb1 hbl hp ho
 
-/-- **Paeth.** `filter_paeth` is the function of the PNG specification, for all 2^24 triples … -/
+/-- **Paeth.** `filterPaeth` is the Rust computation in `i16` (each `+`, `-`, `abs` followed by the
+    two's-complement `wrap16`); `paethSpec` is the PNG specification's function over the unbounded integers
+    (`p = a + b − c`, `pa = |p − a|`, `pb = |p − b|`, `pc = |p − c|`, ties a, then b, then c). The two agree
+    on all 2^24 triples because no intermediate value leaves the `i16` range (`paeth_in_i16`), so this is a
+    range argument, not a definitional unfolding. -/
 theorem paeth_eq_spec (a b c : UInt8) : filterPaeth a b c = paethSpec a b c := filterPaeth_eq_spec a b c
 
-/-- … and that function picks, among left / above / upper-left, a value closest to `a + b − c`. -/
+/-- every intermediate value of `filter_paeth` lies in the `i16` range: with overflow checks on, none of its
+    additions, subtractions or `abs` calls can panic (the values are in fact within [−255, 765]) -/
+theorem paeth_in_i16 (a b c : UInt8) :
+    let ia : Int := a.toNat; let ib : Int := b.toNat; let ic : Int := c.toNat
+    let p := ia + ib - ic
+    (∀ x ∈ [ia + ib, p, p - ia, p - ib, p - ic, ((p - ia).natAbs : Int), ((p - ib).natAbs : Int), ((p - ic).natAbs : Int)],
+      -32768 ≤ x ∧ x < 32768) := by
+  have ha : a.toNat < 256 := by have := a.toNat_lt_size; simpa [UInt8.size] using this
+  have hb : b.toNat < 256 := by have := b.toNat_lt_size; simpa [UInt8.size] using this
+  have hc : c.toNat < 256 := by have := c.toNat_lt_size; simpa [UInt8.size] using this
+  intro ia ib ic p x hx
+  simp only [List.mem_cons, List.not_mem_nil, or_false] at hx
+  rcases hx with rfl | rfl | rfl | rfl | rfl | rfl | rfl | rfl <;> (simp only [ia, ib, ic, p]; omega)
+
+/-- the result is one of the three neighbours and none of them is closer to `a + b − c` … -/
 theorem paeth_nearest (a b c : UInt8) :
     let p : Int := (a.toNat : Int) + b.toNat - c.toNat
     let r := filterPaeth a b c
     (r = a ∨ r = b ∨ r = c) ∧
     (p - r.toNat).natAbs ≤ (p - a.toNat).natAbs ∧ (p - r.toNat).natAbs ≤ (p - b.toNat).natAbs ∧
     (p - r.toNat).natAbs ≤ (p - c.toNat).natAbs := by
-  simp only [filterPaeth]
+  simp only [paeth_eq_spec, paethSpec]
   split
   · refine ⟨Or.inl rfl, ?_, ?_, ?_⟩ <;> omega
   · split
     · refine ⟨Or.inr (Or.inl rfl), ?_, ?_, ?_⟩ <;> omega
     · refine ⟨Or.inr (Or.inr rfl), ?_, ?_, ?_⟩ <;> omega
+
+/-- … and ties are broken in the order left, above, upper left — stated declaratively, independent of the
+    `if` cascade of either definition: left wins when it is weakly nearest; above wins when it is strictly
+    nearer than left and weakly nearer than upper left; upper left only when strictly nearer than both.
+    Together with `paeth_nearest` this determines the function: the three cases are exhaustive and exclusive. -/
+theorem paeth_tie_order (a b c : UInt8) :
+    let p : Int := (a.toNat : Int) + b.toNat - c.toNat
+    let da := (p - a.toNat).natAbs; let db := (p - b.toNat).natAbs; let dc := (p - c.toNat).natAbs
+    (da ≤ db ∧ da ≤ dc → filterPaeth a b c = a) ∧
+    (db < da ∧ db ≤ dc → filterPaeth a b c = b) ∧
+    (dc < da ∧ dc < db → filterPaeth a b c = c) ∧
+    ((da ≤ db ∧ da ≤ dc) ∨ (db < da ∧ db ≤ dc) ∨ (dc < da ∧ dc < db)) := by
+  simp only [paeth_eq_spec, paethSpec]
+  refine ⟨?_, ?_, ?_, ?_⟩
+  · intro h; simp [h]
+  · intro h
+    rw [if_neg (by omega), if_pos (by omega)]
+  · intro h
+    rw [if_neg (by omega), if_neg (by omega)]
+  · omega
+
+/-- non-vacuity of the tie rule: (left 3, above 0, upper-left 2) is a tie between above and upper left,
+    above wins; (1, 2, 3) has left nearest -/
+example : filterPaeth 3 0 2 = 0 ∧ filterPaeth 1 2 3 = 1 ∧ filterPaeth 10 20 15 = 15 := by decide
 
 /-- the byte distance and the row size computed from Colors / BitsPerComponent / Columns are usable:
     1 ≤ bpp ≤ stride -/
@@ -105,6 +147,26 @@ theorem unpredict_predict_png (p : Params) (bpp S : Nat) (hp : p.predictor ≥ 1
 theorem tiffRow_inverts (colors bpc columns : Nat) (hc : 1 ≤ colors) (hb : ValidBpc bpc) (row : Bytes) :
     tiffRow colors bpc columns (tiffDiffRow colors bpc columns row) = row :=
   tiffRow_diffRow colors bpc columns hc hb row
+
+/-- the byte indices `get(row, bpc, k)` / `set(row, bpc, k, _)` of `tiff_unpredict` read and write:
+    `row[2*k]`, `row[2*k + 1]` (16 bit), `row[k]` (8 bit), `row[k*bpc / 8]` (1, 2, 4 bit) -/
+def tiffIndices (bpc k : Nat) : List Nat :=
+  if bpc = 16 then [2 * k, 2 * k + 1] else if bpc = 8 then [k] else [k * bpc / 8]
+
+/-- **TIFF path, index safety.** The model writes `tiffGet` / `tiffSet` with the total `getD` / `List.set`
+    (no `.panic` branch), so `decode_never_panics` says nothing about the Rust slice indexing there. This
+    theorem supplies it: the row loop only touches samples `k` and `k − colors` with
+    `colors ≤ k < min (colors·columns) (row.len()·8 / bpc)`, and for every such sample, every bit depth the
+    geometry guard admits and every row length (also a last row cut short) all indices are inside the row;
+    `tiffSet` keeps the row length (`Lens.len_set`), so this holds throughout the loop. -/
+theorem tiff_indices_in_range (colors bpc columns : Nat) (hb : ValidBpc bpc) (row : Bytes) (k : Nat)
+    (hk : k < min (colors * columns) (row.length * 8 / bpc)) :
+    (∀ i ∈ tiffIndices bpc k, i < row.length) ∧ (∀ i ∈ tiffIndices bpc (k - colors), i < row.length) := by
+  have key : ∀ j, j ≤ k → ∀ i ∈ tiffIndices bpc j, i < row.length := by
+    intro j hj i hi
+    unfold tiffIndices at hi
+    rcases hb with rfl | rfl | rfl | rfl | rfl <;> simp at hi <;> omega
+  exact ⟨key k (Nat.le_refl _), key (k - colors) (Nat.sub_le _ _)⟩
 
 /-- **Whole image, TIFF predictor 2.** -/
 theorem unpredict_predict_tiff (p : Params) (bpp S : Nat) (hp : p.predictor = 2)
@@ -125,7 +187,10 @@ theorem lzw_decode_of_encodes (early : Bool) {bs text : Bytes} (h : LzwSpec.Enco
   Lzw.decode_of_encodesToLzw early h
 
 /-- **LZW, error clause.** Arbitrary bytes (invalid codes, missing EOD, truncated codes): an error or a
-    value, never a panic, and the fuel `8·len + 1` always suffices. -/
+    value. The model of the code automaton has no `.panic` branch (weezl's automaton has no operation that
+    could panic at this level; its buffer mechanics are not modelled), so the content of this theorem is
+    `≠ .oof`: the fuel `8·len + 1` always suffices, and every malformed stream is `.err`. That weezl itself
+    does not panic on damaged streams is checked by `c05.nopanic` / `c05.lzw.decode.broken`. -/
 theorem lzw_decode_never_panics (early : Bool) (data : Bytes) : (Lzw.decode early data).Returns :=
   Lzw.decode_returns early data
 
@@ -240,20 +305,54 @@ theorem pairing_ok {α β : Type} (dflt : β) : ∀ (fs : List α) (ps : List (O
 
 /-! ## Error clause: truncated or corrupted data gives an error or a value, never a panic -/
 
-/-- every single decoder, on every byte string, for every parameter set and whatever the third-party
-    decompressors return -/
+/-- **Error clause, one filter**: for every byte string, every parameter set and whatever the third-party
+    decompressors return, the *model* of `decode` ends in a value or an error (`≠ .panic ∧ ≠ .oof`).
+    What that means depends on which Rust panics the model makes explicit:
+    * PNG predictor path — real content: `unfilter`'s three `assert_eq!`, every slice of the row loop
+      (`inp[in_off]`, `&inp[in_off..in_off+stride]`, `out[out_off..]`, `split_at_mut`, `&prev[last..]`,
+      `&mut curr[..stride]`) and `chunks_mut(0)` are `.panic` branches of `pngLoop` / `unfilter` /
+      `tiffUnpredict`, and the theorem proves none is reached (`pngLoop_returns`: offset invariants);
+      `predictor_geometry` turns bad parameters into `.err`.
+    * TIFF predictor path — `tiffGet` / `tiffSet` are written with total `getD` / `List.set`: there is no
+      panic branch, index safety is the separate theorem `tiff_indices_in_range` (and the correspondence
+      stream `c05.unpredict.*`).
+    * ASCIIHex, ASCII85, RunLength (after the D13 repair), LZW — the Rust code has no indexing / arithmetic
+      that can panic and the models have no `.panic` branch: for them the content is `≠ .oof` (the fuel handed
+      out by the entry points suffices: `runLengthLoop_returns`, `Lzw.loop_returns`) plus "every malformed
+      input is `.err`"; the absence of panics in the real functions is what the oracle `c05.nopanic` and the
+      out-of-domain correspondence streams check.
+    * Flate / DCT — third-party parameters: whatever they return, the code around them does not panic. -/
 theorem decode_never_panics (X : Ext) (data : Bytes) (f : Filter) : (decode X data f).Returns :=
   decode_returns X data f
 
-/-- every chain -/
+/-- every chain (same reading as `decode_never_panics`; the fold itself has no panic) -/
 theorem decodeChain_never_panics (X : Ext) (fs : List Filter) (data : Bytes) : (decodeChain X data fs).Returns :=
   decodeChain_returns X fs data
 
-/-- `unfilter` itself panics exactly when its three slices differ in length (the `assert_eq!`s) -/
+/-- with its three slices equally long `unfilter` returns a row of that length (one direction; the converse
+    is `unfilter_panics_iff`) -/
 theorem unfilter_total (t : PredictorType) (bpp : Nat) (prev inp out : Bytes)
     (h1 : inp.length = out.length) (h2 : inp.length = prev.length) :
     ∃ o, unfilter t bpp prev inp out = .ok o ∧ o.length = out.length :=
   unfilter_ok t bpp prev inp out h1 h2
+
+/-- `unfilter` panics **exactly when** its three slices differ in length (the two `assert_eq!`s) -/
+theorem unfilter_panics_iff (t : PredictorType) (bpp : Nat) (prev inp out : Bytes) :
+    unfilter t bpp prev inp out = .panic ↔ ¬ (inp.length = out.length ∧ inp.length = prev.length) := by
+  constructor
+  · intro h hl
+    obtain ⟨o, ho, _⟩ := unfilter_ok t bpp prev inp out hl.1 hl.2
+    rw [ho] at h; cases h
+  · intro h
+    unfold unfilter
+    by_cases h1 : inp.length = out.length
+    · have h2 : inp.length ≠ prev.length := fun h2 => h ⟨h1, h2⟩
+      simp [h1]
+      intro h3; exact absurd (h1 ▸ h3) h2
+    · simp [h1]
+
+example : unfilter .up 1 [1] [1, 2] [0, 0] = .panic := by decide
+example : unfilter .up 1 [1, 1] [1, 2] [0, 0] = .ok [2, 3] := by decide
 
 /-! ## The domain certificates the driver hands to the harness are sound -/
 
